@@ -15,7 +15,7 @@ use std::path::PathBuf;
 pub static SPEC: PropSpec = PropSpec {
     id: "C16",
     level: "exploration",
-    rule: "projects: 31 scenario families instantiated over package names drawn from {Geo, GeoShapes, Lib, LibX, P1, P10, Ab, Abc, Util, MainUtil, Core, Main..} so that implementing / using packages are proper prefixes of owners and vice versa: impl of a trait for a type placed in the type's package, the trait's package (legal), a third package, Main (orphans), twice in one package across files, with one or both headers qualifying the trait by the package's own name (duplicates), inherent impl on a foreign type; a package-qualified use without import in 11 syntactic positions (let annotation, closure-parameter annotation, call, type in signature, struct literal, struct pattern, enum constructor, enum pattern, dyn type, impl header, generic bound) in Main and in the second file of a library whose first file does import; transitive use; import of a missing package; package declaration that differs from the directory; import cycles of length 1-3; equally named types with impls of one trait in two packages; each accepted project also with decoy packages (same item names, own impls) added and imported. expected: accept + exact stdout, or reject without internal error. non-trivial: every scenario instance; distinct by source hash",
+    rule: "projects: 31 scenario families instantiated over package names drawn from {Geo, GeoShapes, Lib, LibX, P1, P10, Ab, Abc, Util, MainUtil, Core, Main..} so that implementing / using packages are proper prefixes of owners and vice versa: impl of a trait for a type placed in the type's package, the trait's package (legal), a third package, Main (orphans), twice in one package across files, with one or both headers qualifying the trait by the package's own name (duplicates), inherent impl on a foreign type; a package-qualified use without import in 14 syntactic positions (inherent method / static function / trait method reached by a path through the package's type or trait, let annotation, closure-parameter annotation, call, type in signature, struct literal, struct pattern, enum constructor, enum pattern, dyn type, impl header, generic bound) in Main and in the second file of a library whose first file does import; transitive use; import of a missing package; package declaration that differs from the directory; import cycles of length 1-3; equally named types with impls of one trait in two packages; each accepted project also with decoy packages (same item names, own impls) added and imported. expected: accept + exact stdout, or reject without internal error. non-trivial: every scenario instance; distinct by source hash",
     eval_counter: "scenarios",
     assumptions: &["observed through the whole-program entry point (C14 checks that check/build/link agrees with it); behaviour through gomini"],
     crash_is_violation: false,
@@ -101,7 +101,7 @@ fn trait_pkg(p: &mut Proj, t: &str, imports: &[&str], extra: &str) {
 }
 
 fn type_pkg(p: &mut Proj, d: &str, imports: &[&str], extra: &str) {
-    p.file(d, "lib.gom", imports, &format!("struct S {{ v: int32 }}\n\nenum E {{ A, B(int32) }}\n\nfn mk(v: int32) -> S {{ S {{ v: v }} }}\n\nfn f(x: int32) -> int32 {{ x + 20 }}\n\n{}", extra));
+    p.file(d, "lib.gom", imports, &format!("struct S {{ v: int32 }}\n\nenum E {{ A, B(int32) }}\n\nfn mk(v: int32) -> S {{ S {{ v: v }} }}\n\nimpl S {{\n    fn get(self: S) -> int32 {{ self.v }}\n    fn zero() -> int32 {{ 0 }}\n}}\n\nfn f(x: int32) -> int32 {{ x + 20 }}\n\n{}", extra));
 }
 
 fn impl_text(t: &str, d: &str, local_trait: bool, local_type: bool, k: i32) -> String {
@@ -222,7 +222,11 @@ fn scenarios(rng: &mut Rng) -> Vec<Scenario> {
         out.push(Scenario { family: "inherent-impl-on-foreign-type", proj: p, expect: Expect::Reject });
     }
     // 9. uses without import, in Main (the package exists and is imported by another library)
-    let use_forms: [(&str, String); 11] = [
+    let use_forms: [(&str, String); 14] = [
+        // static member paths through a type / trait of the package: the only qualified name in the text
+        ("inherent-method-path", format!("fn probe() -> int32 {{ {}::S::get(MKD) }}\n", d)),
+        ("inherent-static-path", format!("fn probe() -> int32 {{ {}::S::zero() }}\n", d)),
+        ("trait-method-path", format!("fn probe() -> int32 {{ {}::Tr::m(7) }}\n", t)),
         ("let-annotation", format!("fn probe() -> int32 {{ let q: {}::S = MKD; 1 }}\n", d)),
         ("closure-parameter-annotation", format!("fn probe() -> int32 {{ let f = |q: {}::S| 1; 1 }}\n", d)),
         ("call", format!("fn probe() -> int32 {{ {}::f(1) }}\n", d)),
